@@ -285,13 +285,63 @@ def cg_defs(defs):
     tree = lambda: parse(FILES['cg'])
 
     def mean_reduction():
+        """(_add_columns(a[0], b[0]), _add_columns(a[1], b[1])): which components are combined — per column the helper adds"""
         f = find_function(tree(), 'mean_reduction')
         r = only(stmts_of(f.body, ast.Return), 'mean_reduction: return')
         if len(f.body) != 1 or not isinstance(r.value, ast.Tuple) or len(r.value.elts) != 2:
             raise Unsupported('mean_reduction does not return a pair')
-        k = K(f, {'sum_and_n_a[0]': 'a0', 'sum_and_n_a[1]': 'a1', 'sum_and_n_b[0]': 'b0', 'sum_and_n_b[1]': 'b1'})
+        k = K(f, {'_add_columns(sum_and_n_a[0], sum_and_n_b[0])': '(gen_ac_add a0 b0)',
+                  '_add_columns(sum_and_n_a[1], sum_and_n_b[1])': '(gen_ac_add a1 b1)',
+                  '_add_columns(sum_and_n_a[0], sum_and_n_b[1])': '(gen_ac_add a0 b1)',
+                  '_add_columns(sum_and_n_a[1], sum_and_n_b[0])': '(gen_ac_add a1 b0)'})
         P = ['a0', 'a1', 'b0', 'b1']
         return 'Definition gen_mean_reduction %s : Z * Z :=\n  (%s, %s).\n' % (sig(P), k.z(r.value.elts[0], P), k.z(r.value.elts[1], P))
+
+    def ac():
+        f = find_function(tree(), '_add_columns')
+        body = [st for st in f.body if not (isinstance(st, ast.Expr) and isinstance(st.value, ast.Constant))]   # docstring
+        if len(body) != 3 or not isinstance(body[0], ast.If) or not isinstance(body[1], ast.If) or not isinstance(body[2], ast.Return):
+            raise Unsupported('_add_columns is not `if same: return a + b; if shorter: swap; return concatenate`')
+        return f, body
+    kac = lambda: K(ac()[0], {'len(a)': 'la', 'len(b)': 'lb'})
+    PL = ['la', 'lb']
+
+    def ac_equal():
+        f, body = ac()
+        t = body[0].test
+        if not (isinstance(t, ast.BoolOp) and isinstance(t.op, ast.Or) and len(t.values) == 2
+                and src_of(t.values[0]) == "not (hasattr(a, '__len__') and hasattr(b, '__len__'))"
+                and [src_of(x) for x in body[0].body] == ['return a + b'] and not body[0].orelse):
+            raise Unsupported('_add_columns: first branch is %s -> %s' % (src_of(t), [src_of(x) for x in body[0].body]))
+        return bdef('gen_ac_equal_cond', PL, kac().b(t.values[1], PL))
+    emit(defs, 'gen_ac_equal_cond', ac_equal)
+
+    def ac_swap():
+        f, body = ac()
+        if [src_of(x) for x in body[1].body] != ['a, b = (b, a)'] or body[1].orelse:
+            raise Unsupported('_add_columns: second branch does not swap the operands: %s' % [src_of(x) for x in body[1].body])
+        return bdef('gen_ac_swap_cond', PL, kac().b(body[1].test, PL))
+    emit(defs, 'gen_ac_swap_cond', ac_swap)
+
+    def ac_parts():
+        f, body = ac()
+        c = body[2].value
+        if not (isinstance(c, ast.Call) and src_of(c.func) == 'np.concatenate' and len(c.args) == 1 and isinstance(c.args[0], ast.List)
+                and len(c.args[0].elts) == 2):
+            raise Unsupported('_add_columns does not return np.concatenate([head, tail])')
+        head, tail = c.args[0].elts
+        if not (isinstance(head, ast.BinOp) and isinstance(head.op, ast.Add) and is_slice(head.left, 'a', False, True)
+                and src_of(head.right) == 'b' and is_slice(tail, 'a', True, False)):
+            raise Unsupported('_add_columns: head/tail are %s / %s' % (src_of(head), src_of(tail)))
+        return head.left.slice.upper, tail.slice.lower
+    emit(defs, 'gen_ac_prefix_stop', lambda: zdef('gen_ac_prefix_stop', PL, kac().z(ac_parts()[0], PL)))
+    emit(defs, 'gen_ac_tail_start', lambda: zdef('gen_ac_tail_start', PL, kac().z(ac_parts()[1], PL)))
+
+    def ac_add():
+        ac_equal()
+        ac_parts()
+        return zdef('gen_ac_add', ['x', 'y'], '(x + y)')          # `a + b` / `a[:len(b)] + b`, per column
+    emit(defs, 'gen_ac_add', ac_add)
     emit(defs, 'gen_mean_reduction', mean_reduction)
 
     def add_hist():
@@ -404,6 +454,18 @@ def gb_defs(defs):
         k = K(f, {'keys[-1]': 'last_key', 'keys[0]': 'first_key'})
         return bdef('gen_gb_fast_test', ['last_key', 'first_key'], k.b(c.args[0], ['last_key', 'first_key']))
     emit(defs, 'gen_gb_fast_test', fast_test)
+
+    def empty_test():
+        f, _ = gb()
+        tests = [st for st in f.body if isinstance(st, ast.If) and src_of(st.test).startswith('len(keys)')]
+        t = only(tests, 'groupby: empty-table test')
+        if [src_of(x) for x in t.body] != ['return grouped_stream(iter(()), column)'] or t.orelse:
+            raise Unsupported('groupby: an empty table returns %s' % [src_of(x) for x in t.body])
+        shortcut = only([x for x in f.body if isinstance(x, ast.If) and 'keys[-1]' in src_of(x.test)], 'shortcut test')
+        if f.body.index(t) > f.body.index(shortcut):
+            raise Unsupported('groupby: the empty-table test comes after the shortcut test')
+        return bdef('gen_gb_empty_test', ['keys_len'], K(f, {'len(keys)': 'keys_len'}).b(t.test, ['keys_len']))
+    emit(defs, 'gen_gb_empty_test', empty_test)
 
     def fast_start():
         f, test = gb()
